@@ -25,6 +25,8 @@ var theWorker *worker
 func startWorker() *worker {
 	cmd := exec.Command(os.Args[0], "-worker")
 	cmd.Stderr = nil
+	// under the race detector a data race terminates the worker at once (observed as a crash)
+	cmd.Env = append(os.Environ(), "GORACE=halt_on_error=1 exitcode=66")
 	in, err := cmd.StdinPipe()
 	must(err)
 	outp, err := cmd.StdoutPipe()
@@ -70,7 +72,7 @@ func iso(kind, fields string, deadline time.Duration) string {
 		if a.err != nil {
 			w.kill()
 			theWorker = nil
-			return "res=crash oracle_nocrash=fail:process-died(stack-overflow,-fatal-error-or-out-of-memory)"
+			return "res=crash oracle_nocrash=fail:process-died(data-race-under-the-race-detector,-stack-overflow,-fatal-error-or-out-of-memory)"
 		}
 		s := strings.TrimRight(a.s, "\n")
 		if i := strings.IndexByte(s, ' '); i >= 0 {
